@@ -257,8 +257,8 @@ class RenewUnit(IQBase):
                 ex.oblige(s, 'exit: the extra marker is removed (exactly one get, and it was a marker) and all lids are recycled used -> spare',
                           z3.And(s.ghost['qgets'] == 1, self.z == NONE, s.ghost['used'] == 0, s.ghost['spare'] == s.ghost['spare0'] + self.n, s.ghost['hand'] == 0))
             else:
-                ex.oblige(s, 'exit(raise): RuntimeError when the round is not complete (no effect) or the item taken is not a marker',
-                          z3.And(V.isinst(p, 'RuntimeError'), z3.Or(s.ghost['qgets'] == 0, self.z != NONE)))
+                ex.oblige(s, 'exit(raise): RuntimeError when the round is not complete (no effect); when the item taken is not a marker (the protocol was violated by the caller) RuntimeError -- or whatever printing that item raised',
+                          z3.Or(z3.And(V.isinst(p, 'RuntimeError'), z3.Or(s.ghost['qgets'] == 0, self.z != NONE)), z3.And(self.z != NONE, s.ghost['qgets'] == 1, V.isinst(p, 'Exception'))))
 
 
 class RangeVal(Obj):
